@@ -542,7 +542,7 @@ pub fn check_case(case: &Case, st: &mut Stats) -> Check {
     if file_ok_before {
         if let (Ok(p0), Ok(p1)) = (pool_multiset(&bytes0), pool_multiset(&bytes1)) {
             if p0 != p1 {
-                let extra: Vec<String> = p1.iter().filter(|e| !p0.contains(e)).take(3).map(|e| format!("({:?}, {})", String::from_utf8_lossy(&e.0[..e.0.len().min(20)]), e.1)).collect();
+                let extra: Vec<String> = p1.iter().filter(|e| p0.binary_search(e).is_err()).take(3).map(|e| format!("({:?}, {})", String::from_utf8_lossy(&e.0[..e.0.len().min(20)]), e.1)).collect();
                 return Err(Fail::new(format!("{P} pool-changed call={kind}"), detail(&format!("the string pool differs (entries now present: {extra:?})"))));
             }
         }
